@@ -122,6 +122,22 @@ def translate():
         L.append("/-- `QQ(%d, %d)` -/\ndef m%d%d %s : Rat :=\n  %s\n" % (i, j, i, j, args, em.emit(QQ[(i, j)])))
     L.append("end Votca.Gen.EE")
     write_if_changed(os.path.join(VERIF, "lean", "Votca", "Gen", "EE.lean"), "\n".join(L) + "\n")
+    # the same entries over an arbitrary field (theorems that need `s * s = 3` are stated there: no rational number has that square)
+    emk = cexpr.Emitter("field", names)
+    K = ["import Mathlib.Algebra.Field.Basic",
+         "/-! GENERATED by tools/translate/tr_c15.py from xtp/src/libxtp/eeinteractor.cc (eeInteractor::VSiteA) — do not edit.",
+         "The entries of Gen/EE.lean over an arbitrary field `K` (Mathlib side: not imported by the driver). -/",
+         "namespace Votca.Gen.EEK", "set_option linter.unusedVariables false", "variable {K : Type} [Field K]", ""]
+    argsK = "(x y z f s : K)"
+    for i in range(5):
+        K.append("def g%d %s : K :=\n  %s\n" % (i, argsK, emk.emit(Qq[i])))
+    for k in range(5):
+        for c, cn in enumerate("xyz"):
+            K.append("def c%d%s %s : K :=\n  let f4 := f*f*f*f\n  %s\n" % (k, cn, argsK, emk.emit(dQ[k][c])))
+    for (i, j) in sorted(QQ):
+        K.append("def m%d%d %s : K :=\n  %s\n" % (i, j, argsK, emk.emit(QQ[(i, j)])))
+    K.append("end Votca.Gen.EEK")
+    write_if_changed(os.path.join(VERIF, "lean", "Votca", "Gen", "EEK.lean"), "\n".join(K) + "\n")
     return {"entries": 5 + 15 + 15, "structure_statements_checked": len(needles)}
 
 
